@@ -246,6 +246,35 @@ def shard_exhaustive(acc, shard, nshards, max_p, max_t):
             acc.record("pair", check_pair, [list(p), list(t)])
 
 
+def check_light(case):
+    """Listing, count, containment and avoidance only, for all patterns of length 3-5 in one
+    target of the next length: buys a further target length over the full sweep."""
+    t = tuple(case)
+    T = Perm(t)
+    for k in (3, 4, 5):
+        if k > len(t):
+            continue
+        for p in ref.perms(k):
+            P = Perm(p)
+            want = ref.occ(p, t)
+            got = list(P.occurrences_in(T))
+            if got != want:
+                return BAD("light_occurrences_in", {"pattern": list(p), "target": list(t), "got": got[:5], "want": want[:5]})
+            has = bool(want)
+            if T.contains(P) != has or T.avoids(P) == has or (P in T) != has or T.count_occurrences_of(P) != len(want):
+                return BAD("light_entry_points", {"pattern": list(p), "target": list(t), "occurrences": len(want)})
+    return OK(True, "light", key="light" + str(t))
+
+
+CHECKS["light"] = check_light
+
+
+def shard_light(acc, shard, nshards, n):
+    for i, t in enumerate(ref.perms(n)):
+        if i % nshards == shard:
+            acc.record("light", check_light, list(t))
+
+
 @st.composite
 def coloured_cases(draw):
     p, t = draw(gen.pattern_target(4, 8))
@@ -322,6 +351,7 @@ def run(acc, tier):
         engine.fuzz(acc, "pair", CHECKS, 300000, corpus_seeds=[[3, 5, 10, 200, 30, 5, 9, 7, 1, 8, 2, 6], [2, 4, 9, 1, 3, 2]])
         engine.fuzz(acc, "coloured", CHECKS, 150000)
     engine.pmap(acc, shard_exhaustive, extra=bounds)
+    engine.pmap(acc, shard_light, extra=(bounds[1] + 1,))
     engine.pmap(acc, shard_generated, extra=counts)
     acc.note("exhaustive_bound", {"max_pattern_len": bounds[0], "max_perm_len": bounds[1]})
     META["exhaustive"] = False
